@@ -30,7 +30,7 @@ _DBS = None
 
 def _rows(rng, n):
     ints = [None, 0, 1, 1, 2, 2, 3, 5, -1, 7]
-    strs = [None, "x", "abc", "it's", "x", "%x_", "b"]
+    strs = [None, "x", "abc", "it's", "x", "%x_", "b", "{name}", "{{name}}"]
     rows = [tuple([rng.choice(ints) for _ in INT_COLS] + [rng.choice(strs)]) for _ in range(n)]
     rows.append(rows[0])                                  # an exact duplicate
     rows.append(tuple([None] * len(COLS)))                # an all-NULL row
@@ -154,7 +154,7 @@ class Ref:
         if k == "not":
             return "(NOT (%s))" % self.term(t[1])
         if k == "in":
-            if t[2][0] != "tuple" or not t[2][1]:
+            if t[2][0] != "tuple":
                 raise NotJudged("in-container")
             return "((%s) %sIN (%s))" % (self.term(t[1]), "NOT " if t[3] else "", ", ".join("(%s)" % self.term(x) for x in t[2][1]))
         if k == "between":
